@@ -2,6 +2,7 @@ import BadgerModel.ManifestPb
 import BadgerModel.Bloom
 import BadgerModel.Trie
 import BadgerModel.Key
+import BadgerModel.Publisher
 import BadgerModel.Driver.Util
 /-!
 Engines of `bmd_aux`: `manifest` (stateful), `bloom` (stateless), `trie` (stateful).
@@ -333,6 +334,108 @@ def trieStep (st : TState) (line : String) : TState × String :=
       | none => (st, "err")
       | some bs => (st, if bs.isEmpty then "-" else String.ofList (bs.map (fun b => if b then '1' else '0')))
     | none => (st, "bad-op")
+  | _ => (st, "bad-op")
+
+/-! ## subscribe (DB.Subscribe on a real DB; model: `BadgerModel/Publisher.lean`) -/
+
+structure SubState where
+  pub : Publisher := Publisher.empty
+  ts : Nat := 0            -- last commit timestamp handed out
+
+def badgerPrefix : Bytes := "!badger!".toUTF8.toList
+def txnKey : Bytes := "!badger!txn".toUTF8.toList
+
+/-- One write of a transaction: (user key, value, user meta, expiresAt). -/
+def parseWrite (s : String) : Option (Bytes × Bytes × Nat × Nat) :=
+  match s.splitOn ":" with
+  | ["s", k, v, m, e] =>
+    match fromHex k, fromHex v, m.toNat?, e.toNat? with
+    | some k, some v, some m, some e => some (k, v, m, e)
+    | _, _, _, _ => none
+  | ["d", k] => (fromHex k).map (fun k => (k, [], 0, 0))
+  | _ => none
+
+def parseTxn (s : String) : Option (List (Bytes × Bytes × Nat × Nat)) :=
+  allSome ((s.splitOn ";").map parseWrite)
+
+/-- `txn.pendingWrites` is a map keyed by the user key: the last write of a key wins; the map is
+    iterated in random order, so the canonical order (both sides) is by key. -/
+def insertWrite (w : Bytes × Bytes × Nat × Nat) : List (Bytes × Bytes × Nat × Nat) → List (Bytes × Bytes × Nat × Nat)
+  | [] => [w]
+  | x :: xs =>
+    match cmpBytes w.1 x.1 with
+    | .lt => w :: x :: xs
+    | .eq => w :: xs
+    | .gt => x :: insertWrite w xs
+
+def canonWrites (ws : List (Bytes × Bytes × Nat × Nat)) : List (Bytes × Bytes × Nat × Nat) :=
+  ws.foldl (fun acc w => insertWrite w acc) []
+
+/-- The request `commitAndSend` builds: the writes at version `ts` and the `!badger!txn` end marker. -/
+def txnRequest (ws : List (Bytes × Bytes × Nat × Nat)) (ts : Nat) : List PubEntry :=
+  (canonWrites ws).map (fun w => { ikey := keyWithTs w.1 ts, value := w.2.1, userMeta := w.2.2.1, expiresAt := w.2.2.2 })
+    ++ [{ ikey := keyWithTs txnKey ts, value := (toString ts).toUTF8.toList, userMeta := 0, expiresAt := 0 }]
+
+def kvStr (kv : KV) : String :=
+  s!"{kv.version}:{toHex kv.key}:{toHex kv.value}:{kv.userMeta}:{kv.expiresAt}"
+
+/-- `!badger!` keys are ignored on both sides of the comparison (DESIGN §8.11). -/
+def kvListStr (l : List KV) : String :=
+  let l := l.filter (fun kv => !(badgerPrefix.isPrefixOf kv.key))
+  if l.isEmpty then "-" else joinWith "," (l.map kvStr)
+
+def commitAll (st : SubState) : List (List (Bytes × Bytes × Nat × Nat)) → SubState × List (List PubEntry)
+  | [] => (st, [])
+  | ws :: rest =>
+    let ts := st.ts + 1
+    let (st', reqs) := commitAll { st with ts := ts } rest
+    (st', txnRequest ws ts :: reqs)
+
+def subscribeStep (st : SubState) (line : String) : SubState × String :=
+  match words line with
+  | ["reset"] =>
+    let (p, _) := Publisher.empty.subscribe [([], [])]      -- the witness subscriber (empty prefix)
+    ({ pub := p, ts := 0 }, "ok 0")
+  | "sub" :: ws | "subg" :: ws =>
+    match parseMatchWords ws with
+    | none => (st, "bad-op")
+    | some ms =>
+      let (p, r) := st.pub.subscribe ms
+      ({ st with pub := p }, match r with | some id => toString id | none => "err")
+  | ["txn", t] =>
+    match parseTxn t with
+    | none => (st, "bad-op")
+    | some ws =>
+      let (st', reqs) := commitAll st [ws]
+      ({ st' with pub := st'.pub.publish reqs }, s!"ok {st'.ts}")
+  | "atxn" :: ts =>
+    match allSome (ts.map parseTxn) with
+    | none => (st, "bad-op")
+    | some wss =>
+      if wss.isEmpty then (st, "bad-op") else
+      let (st', reqs) := commitAll st wss
+      -- how the requests are grouped into publishUpdates calls does not matter (C32_exactly_once_in_order
+      -- holds for every grouping); the driver hands them over in one call
+      ({ st' with pub := st'.pub.publish reqs }, s!"ok {st'.ts}")
+  | ["cancel", id] =>
+    match natArg id with
+    | none => (st, "bad-op")
+    | some id =>
+      if id = 0 then (st, "bad-op") else
+      match st.pub.find id with
+      | none => (st, "gone")
+      | some s =>
+        if !s.ok then (st, "gone") else
+        -- the harness waits until the channel is empty before cancelling
+        let p := (st.pub.deliver id s.queue.length).cancel id
+        ({ st with pub := p }, kvListStr (p.deliveredTo id))
+  | ["close"] =>
+    -- finding F24: a failed Subscribe leaves its subscriber registered; `cleanSubscribers` then
+    -- waits forever for a Subscribe loop that does not exist and `DB.Close` never returns
+    if st.pub.subs.any (fun s => !s.ok) then (st, "hang") else
+    let ids := (st.pub.subs.filter (·.ok)).map (·.id)
+    let p := ids.foldl (fun p id => p.close id) st.pub
+    ({ st with pub := p }, joinWith "|" (ids.map (fun id => s!"{id}={kvListStr (p.deliveredTo id)}")))
   | _ => (st, "bad-op")
 
 end Badger.Driver
